@@ -1,1 +1,1 @@
-"""Symbolic CEK evaluator for Untyped Plutus Core (see README.md)."""
+"""Symbolic CEK evaluator for Untyped Plutus Core (see README.md): machine.Machine / parse_term, values.*, compare.equivalent."""
